@@ -435,3 +435,954 @@ Proof.
       destruct (lookup pd k) as [p|] eqn:Hl; [|reflexivity].
       apply Hs in Hl. rewrite H1, N.eqb_refl in Hl. discriminate.
 Qed.
+
+(* ------------------------------------------------------------------------------------------ *)
+(* the basic invariant: at most once, never early *)
+Require Import Coq.Sorting.Permutation.
+
+Record Inv1 (s : dstate) : Prop := {
+  i_keys : NoDup (map fst (pending s));
+  i_sends : NoDup (send_uuids (prog s) ++ sent_uuids (trace s));
+  i_pend : forall u p, lookup (pending s) u = Some p ->
+             exists sid tgt, In (ESend u sid tgt (p_enq p) (p_delay p)) (trace s);
+  i_tgt : forall u sid tgt, lookup (targets s) u = Some (sid, tgt) ->
+             exists enq d, In (ESend u sid tgt enq d) (trace s);
+  i_cb : forall u, tpc_on (tpc s) = Some u ->
+             (exists sid tgt enq d, In (ESend u sid tgt enq d) (trace s) /\ enq + d <= now s) /\
+             (forall p, lookup (pending s) u = Some p -> p_armed p = false) /\
+             (exists d, last_expire (trace s) = Some (u, d));
+  i_pre : forall u, tpc_pre (tpc s) = Some u -> ~ In u (delivered (trace s));
+  i_dlv_unarmed : forall u p, In u (delivered (trace s)) -> lookup (pending s) u = Some p -> p_armed p = false;
+  i_dlv_nodup : NoDup (delivered (trace s));
+  i_dlv : forall u t tgt b, In (EDeliver u t tgt b) (trace s) ->
+             t <= now s /\ exists sid tgt' enq d, In (ESend u sid tgt' enq d) (trace s) /\ enq + d <= t
+}.
+
+Lemma tpc_pre_on t u : tpc_pre t = Some u -> tpc_on t = Some u.
+Proof. destruct t; cbn; congruence. Qed.
+
+(* a uuid about to be sent has not been sent *)
+Lemma fresh_uuid s u sid tgt d rest :
+  Inv1 s -> prog s = OSend u sid tgt d :: rest ->
+  ~ In u (sent_uuids (trace s)) /\ NoDup (send_uuids rest ++ u :: sent_uuids (trace s)).
+Proof.
+  intros HI Hp. pose proof (i_sends _ HI) as Hnd. rewrite Hp in Hnd. cbn in Hnd.
+  split.
+  - inversion Hnd as [|? ? Hni _]; subst. intros H. apply Hni. apply in_or_app. now right.
+  - eapply Permutation_NoDup; [|exact Hnd]. apply Permutation_middle.
+Qed.
+
+Lemma fresh_not_delivered s u : Inv1 s -> ~ In u (sent_uuids (trace s)) -> ~ In u (delivered (trace s)).
+Proof.
+  intros HI Hf Hd. apply in_delivered in Hd as (t & g & b & Hd).
+  destruct (i_dlv _ HI _ _ _ _ Hd) as (_ & sid & tgt' & enq & d & Hs & _).
+  apply Hf. eapply sent_in; eauto.
+Qed.
+
+Lemma fresh_not_pending s u p : Inv1 s -> ~ In u (sent_uuids (trace s)) -> lookup (pending s) u = Some p -> False.
+Proof.
+  intros HI Hf Hl. destruct (i_pend _ HI _ _ Hl) as (sid & tgt & Hs). apply Hf. eapply sent_in; eauto.
+Qed.
+
+Lemma fresh_not_cb s u : Inv1 s -> ~ In u (sent_uuids (trace s)) -> tpc_on (tpc s) = Some u -> False.
+Proof.
+  intros HI Hf Hc. destruct (i_cb _ HI _ Hc) as ((sid & tgt & enq & d & Hs & _) & _).
+  apply Hf. eapply sent_in; eauto.
+Qed.
+
+Section Preserve1.
+  Variable v : dvariant.
+  Variable pick : list (N * N) -> N -> option N.
+  (* libevent: the callback that runs next belongs to a timer that is due *)
+  Definition pick_sound : Prop :=
+    forall l t u, pick l t = Some u ->
+      exists d, In (u, d) l /\ d <= t /\ forall u' d', In (u', d') l -> d' <= t -> d <= d'.
+  Hypothesis Hpick : pick_sound.
+
+  Lemma armed_list_in pd u d :
+    In (u, d) (armed_list pd) <-> exists p, In (u, p) pd /\ p_armed p = true /\ d = p_due p.
+  Proof.
+    unfold armed_list. rewrite in_map_iff. split.
+    - intros [[k p] [Heq Hin]]. apply filter_In in Hin as [Hin Ha]. cbn in *.
+      inversion Heq; subst. now exists p.
+    - intros (p & Hin & Ha & ->). exists (u, p). split; [reflexivity|].
+      apply filter_In. now split.
+  Qed.
+
+  Ltac wk := repeat match goal with
+    | H : exists _, _ |- _ => destruct H
+    | H : _ /\ _ |- _ => destruct H
+    end; cbn; eauto 12 using in_cons, in_eq.
+
+  Lemma Inv1_step s s' : step_rel v pick s s' -> Inv1 s -> Inv1 s'.
+  Proof.
+    intros Hs HI. destruct Hs.
+    - (* send, delay 0 *)
+      destruct (fresh_uuid _ _ _ _ _ _ HI H0) as [Hf Hnd].
+      constructor; cbn.
+      + apply (i_keys _ HI).
+      + exact Hnd.
+      + intros u0 p Hl. destruct (i_pend _ HI _ _ Hl) as (a & b & Hin). wk.
+      + intros u0 sid0 tgt0 Hl. rewrite lookup_remove in Hl. destruct (u =? u0); [discriminate|].
+        destruct (i_tgt _ HI _ _ _ Hl) as (a & b & Hin). wk.
+      + intros u0 Hc. destruct (i_cb _ HI _ Hc) as (H2 & H3 & H4). repeat split; auto. wk.
+      + intros u0 Hc [->|Hd].
+        * apply (fresh_not_cb _ _ HI Hf). now apply tpc_pre_on.
+        * now apply (i_pre _ HI _ Hc).
+      + intros u0 p [<-|Hd] Hl.
+        * exfalso. eapply fresh_not_pending; eauto.
+        * eapply i_dlv_unarmed; eauto.
+      + constructor; [now apply fresh_not_delivered | apply (i_dlv_nodup _ HI)].
+      + intros u0 t tgt0 b [Heq|[Heq|Hin]].
+        * inversion Heq; subst. split; [lia|]. exists sid, tgt0, (now s), 0. split; [right; now left | lia].
+        * discriminate.
+        * destruct (i_dlv _ HI _ _ _ _ Hin) as (Ht & a & b0 & c & e & Hin' & Hle). split; [exact Ht|].
+          exists a, b0, c, e. split; [right; right; exact Hin' | exact Hle].
+    - (* send with a delay *)
+      destruct (fresh_uuid _ _ _ _ _ _ HI H0) as [Hf Hnd].
+      destruct (cancel_entry_done _ _ _ _ _ H4) as (Hlk & Hk & _).
+      constructor; cbn.
+      + apply nodup_put. apply Hk. apply (i_keys _ HI).
+      + exact Hnd.
+      + intros u0 p Hl. rewrite lookup_put in Hl. destruct (u =? u0) eqn:E.
+        * apply N.eqb_eq in E; subst u0. injection Hl as <-. cbn. exists sid, tgt. now left.
+        * rewrite Hlk, E in Hl. destruct (i_pend _ HI _ _ Hl) as (a & b & Hin). wk.
+      + intros u0 sid0 tgt0 Hl. rewrite lookup_put in Hl. destruct (u =? u0) eqn:E.
+        * apply N.eqb_eq in E; subst u0. injection Hl as <- <-. exists (now s), d. now left.
+        * destruct (i_tgt _ HI _ _ _ Hl) as (a & b & Hin). wk.
+      + intros u0 Hc. destruct (i_cb _ HI _ Hc) as (H5 & H6 & H7). split; [wk|]. split; [|wk].
+        intros p Hl. rewrite lookup_put in Hl. destruct (u =? u0) eqn:E.
+        * apply N.eqb_eq in E; subst u0. exfalso. eapply fresh_not_cb; eauto.
+        * rewrite Hlk, E in Hl. auto.
+      + intros u0 Hc. now apply (i_pre _ HI _ Hc).
+      + intros u0 p Hd Hl. rewrite lookup_put in Hl. destruct (u =? u0) eqn:E.
+        * apply N.eqb_eq in E; subst u0. exfalso. now apply (fresh_not_delivered _ _ HI Hf).
+        * rewrite Hlk, E in Hl. eapply i_dlv_unarmed; eauto.
+      + apply (i_dlv_nodup _ HI).
+      + intros u0 t tgt0 b [Heq|Hin]; [discriminate|].
+        destruct (i_dlv _ HI _ _ _ _ Hin) as (Ht & a & b0 & c & e & Hin' & Hle). split; [exact Ht|].
+        exists a, b0, c, e. split; [right; exact Hin' | exact Hle].
+    - (* fault *) destruct HI; constructor; cbn; assumption.
+    - (* cancel, nothing to do *)
+      assert (Hp : send_uuids (prog s) = send_uuids rest) by (now rewrite H0).
+      constructor; cbn.
+      + apply (i_keys _ HI).
+      + rewrite <- Hp. apply (i_sends _ HI).
+      + intros u0 p Hl. destruct (i_pend _ HI _ _ Hl) as (a & b & Hin). wk.
+      + intros u0 sid0 tgt0 Hl. destruct (i_tgt _ HI _ _ _ Hl) as (a & b & Hin). wk.
+      + intros u0 Hc. destruct (i_cb _ HI _ Hc) as (H3 & H4 & H5). repeat split; auto. wk.
+      + apply (i_pre _ HI).
+      + apply (i_dlv_unarmed _ HI).
+      + apply (i_dlv_nodup _ HI).
+      + intros u0 t tgt0 b [Heq|Hin]; [discriminate|].
+        destruct (i_dlv _ HI _ _ _ _ Hin) as (Ht & a & b0 & c & e & Hin' & Hle). split; [exact Ht|].
+        exists a, b0, c, e. split; [right; exact Hin' | exact Hle].
+    - (* cancel starts *)
+      assert (Hp : send_uuids (prog s) = send_uuids rest) by (now rewrite H0).
+      destruct HI; constructor; cbn; try assumption. now rewrite <- Hp.
+    - (* cancelAll takes the lock *)
+      assert (Hp : send_uuids (prog s) = send_uuids rest) by (now rewrite H0).
+      destruct HI; constructor; cbn; try assumption. now rewrite <- Hp.
+    - (* cancelAll done *)
+      destruct (cancel_all_done _ _ _ _ _ H0) as (Hsub & Hk & _).
+      constructor; cbn.
+      + apply Hk, (i_keys _ HI).
+      + apply (i_sends _ HI).
+      + intros u0 p Hl. apply Hsub in Hl. apply (i_pend _ HI _ _ Hl).
+      + apply (i_tgt _ HI).
+      + intros u0 Hc. destruct (i_cb _ HI _ Hc) as (H3 & H4 & H5). repeat split; auto.
+      + apply (i_pre _ HI).
+      + intros u0 p Hd Hl. apply Hsub in Hl. eapply i_dlv_unarmed; eauto.
+      + apply (i_dlv_nodup _ HI).
+      + apply (i_dlv _ HI).
+    - destruct HI; constructor; cbn; assumption.
+    - destruct HI; constructor; cbn; assumption.
+    - (* last cancel step *)
+      pose proof (cancel_entry_submap _ _ _ _ _ H0) as Hsub.
+      destruct (cancel_entry_done _ _ _ _ _ H0) as (_ & Hk & _).
+      constructor; cbn.
+      + apply Hk, (i_keys _ HI).
+      + apply (i_sends _ HI).
+      + intros u0 p Hl. apply Hsub in Hl. destruct (i_pend _ HI _ _ Hl) as (a & b & Hin). wk.
+      + intros u0 sid0 tgt0 Hl. rewrite lookup_remove in Hl. destruct (u =? u0); [discriminate|].
+        destruct (i_tgt _ HI _ _ _ Hl) as (a & b & Hin). wk.
+      + intros u0 Hc. destruct (i_cb _ HI _ Hc) as (H3 & H4 & H5). repeat split; auto. wk.
+      + apply (i_pre _ HI).
+      + intros u0 p Hd Hl. apply Hsub in Hl. eapply i_dlv_unarmed; eauto.
+      + apply (i_dlv_nodup _ HI).
+      + intros u0 t tgt0 b [Heq|Hin]; [discriminate|].
+        destruct (i_dlv _ HI _ _ _ _ Hin) as (Ht & a & b0 & c & e & Hin' & Hle). split; [exact Ht|].
+        exists a, b0, c, e. split; [right; exact Hin' | exact Hle].
+    - (* cancel step, more to do *)
+      pose proof (cancel_entry_submap _ _ _ _ _ H0) as Hsub.
+      destruct (cancel_entry_done _ _ _ _ _ H0) as (_ & Hk & _).
+      constructor; cbn.
+      + apply Hk, (i_keys _ HI).
+      + apply (i_sends _ HI).
+      + intros u0 p Hl. apply Hsub in Hl. apply (i_pend _ HI _ _ Hl).
+      + intros u0 sid0 tgt0 Hl. rewrite lookup_remove in Hl. destruct (u =? u0); [discriminate|].
+        apply (i_tgt _ HI _ _ _ Hl).
+      + intros u0 Hc. destruct (i_cb _ HI _ Hc) as (H3 & H4 & H5). repeat split; auto.
+      + apply (i_pre _ HI).
+      + intros u0 p Hd Hl. apply Hsub in Hl. eapply i_dlv_unarmed; eauto.
+      + apply (i_dlv_nodup _ HI).
+      + apply (i_dlv _ HI).
+    - destruct HI; constructor; cbn; assumption.
+    - (* expire *)
+      destruct (Hpick _ _ _ H0) as (d & Hin & Hle & _).
+      apply armed_list_in in Hin as (p' & Hin & Harm & ->).
+      pose proof (In_lookup _ _ _ (i_keys _ HI) Hin) as Hl'. rewrite H1 in Hl'. injection Hl' as <-.
+      destruct (i_pend _ HI _ _ H1) as (sid & tgt & Hsent).
+      constructor; cbn.
+      + rewrite keys_upd. apply (i_keys _ HI).
+      + apply (i_sends _ HI).
+      + intros u0 p0 Hl. rewrite lookup_upd in Hl. destruct (u =? u0) eqn:E.
+        * destruct (lookup (pending s) u0) as [q|] eqn:Hq; [|discriminate]. cbn in Hl. injection Hl as <-.
+          destruct (i_pend _ HI _ _ Hq) as (a & b & Hi). cbn. wk.
+        * destruct (i_pend _ HI _ _ Hl) as (a & b & Hi). wk.
+      + intros u0 sid0 tgt0 Hl. destruct (i_tgt _ HI _ _ _ Hl) as (a & b & Hi). wk.
+      + intros u0 [= <-]. split; [|split].
+        * exists sid, tgt, (p_enq p), (p_delay p). split; [now right | exact Hle].
+        * intros p0 Hl. rewrite lookup_upd, N.eqb_refl, H1 in Hl. cbn in Hl. now injection Hl as <-.
+        * now exists (p_due p).
+      + intros u0 [= <-] Hd. pose proof (i_dlv_unarmed _ HI _ _ Hd H1). congruence.
+      + intros u0 p0 Hd Hl. rewrite lookup_upd in Hl. destruct (u =? u0) eqn:E.
+        * destruct (lookup (pending s) u0) as [q|] eqn:Hq; [|discriminate]. cbn in Hl. now injection Hl as <-.
+        * eapply i_dlv_unarmed; eauto.
+      + apply (i_dlv_nodup _ HI).
+      + intros u0 t tgt0 b [Heq|Hi]; [discriminate|].
+        destruct (i_dlv _ HI _ _ _ _ Hi) as (Ht & a & b0 & c & e & Hin' & Hle'). split; [exact Ht|].
+        exists a, b0, c, e. split; [right; exact Hin' | exact Hle'].
+    - (* callback finds nothing and returns *)
+      constructor; cbn; try apply HI. discriminate. discriminate.
+    - destruct HI; constructor; cbn; assumption.
+    - destruct HI; constructor; cbn; assumption.
+    - (* section 1 *)
+      assert (Hsub : forall k q, lookup (if dv_cb_takes_entry v then remove u (pending s) else upd u dealloc (pending s)) k = Some q ->
+                exists q0, lookup (pending s) k = Some q0 /\ p_enq q = p_enq q0 /\ p_delay q = p_delay q0 /\ p_armed q = p_armed q0).
+      { intros k q. destruct (dv_cb_takes_entry v).
+        - rewrite lookup_remove. destruct (u =? k); [discriminate|]. intros Hl. now exists q.
+        - rewrite lookup_upd. destruct (u =? k).
+          + destruct (lookup (pending s) k) as [q0|]; [|discriminate]. cbn. intros [= <-]. now exists q0.
+          + intros Hl. now exists q. }
+      constructor; cbn.
+      + destruct (dv_cb_takes_entry v); [apply nodup_remove | rewrite keys_upd]; apply (i_keys _ HI).
+      + apply (i_sends _ HI).
+      + intros u0 q Hl. destruct (Hsub _ _ Hl) as (q0 & Hq0 & -> & -> & _). apply (i_pend _ HI _ _ Hq0).
+      + apply (i_tgt _ HI).
+      + intros u0 [= <-]. destruct (i_cb _ HI u) as (H3 & H4 & H5); [now rewrite H|].
+        repeat split; auto. intros q Hl. destruct (Hsub _ _ Hl) as (q0 & Hq0 & _ & _ & ->). auto.
+      + intros u0 [= <-]. apply (i_pre _ HI). now rewrite H.
+      + intros u0 q Hd Hl. destruct (Hsub _ _ Hl) as (q0 & Hq0 & _ & _ & ->). eapply i_dlv_unarmed; eauto.
+      + apply (i_dlv_nodup _ HI).
+      + apply (i_dlv _ HI).
+    - (* eventReady takes the lock *)
+      constructor; cbn; try apply HI.
+      + intros u0 [= <-]. apply (i_cb _ HI). now rewrite H.
+      + intros u0 [= <-]. apply (i_pre _ HI). now rewrite H.
+    - (* delivery *)
+      destruct (i_cb _ HI u) as ((sid & tgt & enq & d & Hsent & Hdue) & Hun & Hlast); [now rewrite H|].
+      assert (Hnd : ~ In u (delivered (trace s))) by (apply (i_pre _ HI); now rewrite H).
+      assert (Htr : ready_trace v s u = trace s \/ exists tgt0, ready_trace v s u = EDeliver u (now s) tgt0 true :: trace s).
+      { unfold ready_trace. destruct (lookup (targets s) u) as [[a b]|]; [right; now exists b|].
+        destruct (dv_ready_checks v); [now left | right; now exists 0]. }
+      constructor; cbn.
+      + apply (i_keys _ HI).
+      + destruct Htr as [->|[tgt0 ->]]; cbn; apply (i_sends _ HI).
+      + intros u0 p Hl. destruct (i_pend _ HI _ _ Hl) as (a & b & Hi).
+        destruct Htr as [->|[tgt0 ->]]; wk.
+      + intros u0 sid0 tgt0 Hl. rewrite lookup_remove in Hl. destruct (u =? u0); [discriminate|].
+        destruct (i_tgt _ HI _ _ _ Hl) as (a & b & Hi). destruct Htr as [->|[tgt1 ->]]; wk.
+      + intros u0 [= <-]. split; [|split]; auto.
+        * exists sid, tgt, enq, d. split; [|exact Hdue]. destruct Htr as [->|[tgt1 ->]]; wk.
+        * destruct Hlast as [d0 Hlast]. exists d0. destruct Htr as [->|[tgt1 ->]]; cbn; auto.
+      + discriminate.
+      + intros u0 p Hd Hl. destruct Htr as [Htr|[tgt0 Htr]]; rewrite Htr in Hd; cbn in Hd.
+        * eapply i_dlv_unarmed; eauto.
+        * destruct Hd as [<-|Hd]; [auto | eapply i_dlv_unarmed; eauto].
+      + destruct Htr as [->|[tgt0 ->]]; cbn; [apply (i_dlv_nodup _ HI)|].
+        constructor; [exact Hnd | apply (i_dlv_nodup _ HI)].
+      + intros u0 t tgt0 b Hi. destruct Htr as [Htr|[tgt1 Htr]]; rewrite Htr in *; cbn in Hi.
+        * apply (i_dlv _ HI _ _ _ _ Hi).
+        * destruct Hi as [Heq|Hi].
+          -- inversion Heq; subst. split; [lia|]. exists sid, tgt, enq, d. split; [now right | exact Hdue].
+          -- destruct (i_dlv _ HI _ _ _ _ Hi) as (Ht & a & b0 & c & e & Hin' & Hle'). split; [exact Ht|].
+             exists a, b0, c, e. split; [right; exact Hin' | exact Hle'].
+    - (* section 3 *)
+      assert (Hsub : submap (if dv_cb_takes_entry v then pending s else remove u (pending s)) (pending s)).
+      { intros k q. destruct (dv_cb_takes_entry v); [auto|]. rewrite lookup_remove. now destruct (u =? k). }
+      constructor; cbn; try apply HI.
+      + destruct (dv_cb_takes_entry v); [|apply nodup_remove]; apply (i_keys _ HI).
+      + intros u0 q Hl. apply Hsub in Hl. apply (i_pend _ HI _ _ Hl).
+      + discriminate.
+      + discriminate.
+      + intros u0 q Hd Hl. apply Hsub in Hl. eapply i_dlv_unarmed; eauto.
+    - (* clock *)
+      constructor; cbn; try apply HI.
+      + intros u0 Hc. destruct (i_cb _ HI _ Hc) as ((a & b & c & e & Hi & Hle) & H4 & H5).
+        repeat split; auto. exists a, b, c, e. split; [exact Hi | lia].
+      + intros u0 t tgt0 b Hi. destruct (i_dlv _ HI _ _ _ _ Hi) as (Ht & Hrest). split; [lia | exact Hrest].
+  Qed.
+End Preserve1.
+
+(* ------------------------------------------------------------------------------------------ *)
+(* due order *)
+
+Fixpoint expire_dues (tr : list obs) : list N :=
+  match tr with
+  | [] => []
+  | EExpire _ d :: r => d :: expire_dues r
+  | _ :: r => expire_dues r
+  end.
+
+Fixpoint sorted_ge (l : list N) : Prop :=
+  match l with
+  | [] => True
+  | d :: r => (forall d', In d' r -> d' <= d) /\ sorted_ge r
+  end.
+
+Lemma expire_dues_in tr d : In d (expire_dues tr) -> exists u, In (EExpire u d) tr.
+Proof.
+  induction tr as [|o tr IH]; cbn; [easy|].
+  destruct o as [| u d0 | |]; cbn; try (intros H; destruct (IH H) as [u' Hu]; exists u'; now right).
+  intros [->|H]; [exists u; now left|]. destruct (IH H) as [u' Hu]. exists u'. now right.
+Qed.
+
+Lemma expire_dues_app a b : expire_dues (a ++ b) = expire_dues a ++ expire_dues b.
+Proof. induction a as [|o a IH]; cbn; [reflexivity|]. destruct o; cbn; now rewrite ?IH. Qed.
+
+Lemma sorted_ge_app_r a b : sorted_ge (a ++ b) -> sorted_ge b.
+Proof. induction a as [|x a IH]; cbn; [auto|]. intros [_ H]. auto. Qed.
+
+Lemma last_expire_in l u d : last_expire l = Some (u, d) -> In (EExpire u d) l.
+Proof.
+  induction l as [|o l IH]; cbn; [discriminate|].
+  destruct o; try (intros H; right; now apply IH). intros [= -> ->]. now left.
+Qed.
+
+Lemma last_expire_sorted la lb u1 x1 u2 x2 :
+  sorted_ge (expire_dues (la ++ lb)) ->
+  last_expire (la ++ lb) = Some (u2, x2) -> last_expire lb = Some (u1, x1) -> x1 <= x2.
+Proof.
+  induction la as [|o la IH]; cbn.
+  - intros _ H1 H2. rewrite H1 in H2. injection H2 as -> ->. lia.
+  - destruct o as [| u d | |]; cbn; auto.
+    intros [Hall _] [= -> ->] H2. apply Hall. rewrite expire_dues_app. apply in_or_app. right.
+    apply last_expire_in in H2. clear -H2.
+    induction lb as [|o lb IH]; cbn in *; [easy|].
+    destruct H2 as [->|H2]; [now left|]. destruct o; cbn; auto.
+Qed.
+
+Lemma cons_decomp (o : obs) tr l1 x l2 :
+  o :: tr = l1 ++ x :: l2 -> (l1 = [] /\ o = x /\ tr = l2) \/ (exists l1', l1 = o :: l1' /\ tr = l1' ++ x :: l2).
+Proof.
+  destruct l1 as [|a l1]; cbn; intros H; inversion H; subst; [now left|]. right. now exists l1.
+Qed.
+
+Record InvOrd (s : dstate) : Prop := {
+  o_sorted : sorted_ge (expire_dues (trace s));
+  o_le_now : forall u d, In (EExpire u d) (trace s) -> d <= now s;
+  o_armed : forall k p, lookup (pending s) k = Some p -> p_armed p = true ->
+              forall u d, In (EExpire u d) (trace s) -> d <= p_due p;
+  o_sent : forall u d, In (EExpire u d) (trace s) ->
+              exists sid tgt enq dl, In (ESend u sid tgt enq dl) (trace s) /\ d = enq + dl;
+  o_dlv : forall l1 u t tgt l2, trace s = l1 ++ EDeliver u t tgt true :: l2 ->
+              exists d, last_expire l2 = Some (u, d)
+}.
+
+Section PreserveOrd.
+  Variable v : dvariant.
+  Variable pick : list (N * N) -> N -> option N.
+  Hypothesis Hpick : pick_sound pick.
+
+  (* a step that leaves the history, the clock and the armed timers alone *)
+  Lemma InvOrd_frame s s' :
+    InvOrd s -> trace s' = trace s -> now s <= now s' ->
+    (forall k p, lookup (pending s') k = Some p -> p_armed p = true ->
+       exists p0, lookup (pending s) k = Some p0 /\ p_armed p0 = true /\ p_due p0 = p_due p) ->
+    InvOrd s'.
+  Proof.
+    intros HO Ht Hn Hp. constructor; rewrite ?Ht.
+    - apply (o_sorted _ HO).
+    - intros u d Hi. pose proof (o_le_now _ HO _ _ Hi). lia.
+    - intros k p Hl Ha u d Hi. destruct (Hp _ _ Hl Ha) as (p0 & Hl0 & Ha0 & <-).
+      eapply o_armed; eauto.
+    - apply (o_sent _ HO).
+    - apply (o_dlv _ HO).
+  Qed.
+
+  (* a step that adds one observation other than an expiry or a timer delivery *)
+  Lemma InvOrd_obs s s' o :
+    InvOrd s -> trace s' = o :: trace s -> now s' = now s ->
+    (forall u d, o <> EExpire u d) -> (forall u t g, o <> EDeliver u t g true) ->
+    (forall k p, lookup (pending s') k = Some p -> p_armed p = true ->
+       (exists p0, lookup (pending s) k = Some p0 /\ p_armed p0 = true /\ p_due p0 = p_due p) \/ now s <= p_due p) ->
+    InvOrd s'.
+  Proof.
+    intros HO Ht Hn Hne Hnd Hp.
+    assert (Hin : forall u d, In (EExpire u d) (o :: trace s) -> In (EExpire u d) (trace s)).
+    { intros u d [->|H]; [exfalso; eapply Hne; eauto | exact H]. }
+    constructor; rewrite ?Ht, ?Hn.
+    - pose proof (o_sorted _ HO). destruct o; cbn; auto. exfalso; eapply Hne; eauto.
+    - intros u d Hi. apply Hin in Hi. apply (o_le_now _ HO _ _ Hi).
+    - intros k p Hl Ha u d Hi. apply Hin in Hi. destruct (Hp _ _ Hl Ha) as [(p0 & Hl0 & Ha0 & <-)|Hge].
+      + eapply o_armed; eauto.
+      + pose proof (o_le_now _ HO _ _ Hi). lia.
+    - intros u d Hi. apply Hin in Hi. destruct (o_sent _ HO _ _ Hi) as (a & b & c & e & Hs & He).
+      exists a, b, c, e. split; [now right | exact He].
+    - intros l1 u t tgt l2 Heq. apply cons_decomp in Heq as [(_ & He & _)|(l1' & _ & Heq)].
+      + exfalso; eapply Hnd; eauto.
+      + eapply o_dlv; eauto.
+  Qed.
+
+  Lemma InvOrd_step s s' : step_rel v pick s s' -> Inv1 s -> InvOrd s -> InvOrd s'.
+  Proof.
+    intros Hs HI HO. destruct Hs.
+    - (* send 0: two observations *)
+      apply InvOrd_obs with (s := mk (now s) rest IIdle (tpc s) (pending s) (remove u (targets s)) (current_cb s)
+                                    (delayM s) (queueM s) (ESend u sid tgt (now s) 0 :: trace s))
+                            (o := EDeliver u (now s) tgt false); cbn; try easy.
+      + apply InvOrd_obs with (s := s) (o := ESend u sid tgt (now s) 0); cbn; try easy.
+        intros k p Hl Ha. left. now exists p.
+      + intros k p Hl Ha. left. now exists p.
+    - (* send *)
+      destruct (cancel_entry_done _ _ _ _ _ H4) as (Hlk & _ & _).
+      apply InvOrd_obs with (s := s) (o := ESend u sid tgt (now s) d); cbn; try easy.
+      intros k p Hl Ha. rewrite lookup_put in Hl. destruct (u =? k) eqn:E.
+      + injection Hl as <-. right. unfold p_due; cbn. lia.
+      + rewrite Hlk, E in Hl. left. now exists p.
+    - apply InvOrd_frame with (s := s); cbn; auto; try lia. intros k q Hl Ha. now exists q.
+    - apply InvOrd_obs with (s := s) (o := ECancelDone sid (now s)); cbn; try easy.
+      intros k p Hl Ha. left. now exists p.
+    - apply InvOrd_frame with (s := s); cbn; auto; try lia. intros k q Hl Ha. now exists q.
+    - apply InvOrd_frame with (s := s); cbn; auto; try lia. intros k q Hl Ha. now exists q.
+    - destruct (cancel_all_done _ _ _ _ _ H0) as (Hsub & _ & _).
+      apply InvOrd_frame with (s := s); cbn; auto; try lia. intros k p Hl Ha. apply Hsub in Hl. now exists p.
+    - apply InvOrd_frame with (s := s); cbn; auto; try lia. intros k q Hl Ha. now exists q.
+    - apply InvOrd_frame with (s := s); cbn; auto; try lia. intros k q Hl Ha. now exists q.
+    - pose proof (cancel_entry_submap _ _ _ _ _ H0) as Hsub.
+      apply InvOrd_obs with (s := s) (o := ECancelDone sid (now s)); cbn; try easy.
+      intros k p Hl Ha. apply Hsub in Hl. left. now exists p.
+    - pose proof (cancel_entry_submap _ _ _ _ _ H0) as Hsub.
+      apply InvOrd_frame with (s := s); cbn; auto; try lia. intros k p Hl Ha. apply Hsub in Hl. now exists p.
+    - apply InvOrd_frame with (s := s); cbn; auto; try lia. intros k q Hl Ha. now exists q.
+    - (* expire *)
+      destruct (Hpick _ _ _ H0) as (d & Hin & Hle & Hmin).
+      apply armed_list_in in Hin as (p' & Hin & Harm & ->).
+      pose proof (In_lookup _ _ _ (i_keys _ HI) Hin) as Hl'. rewrite H1 in Hl'. injection Hl' as <-.
+      destruct (i_pend _ HI _ _ H1) as (sid & tgt & Hsent).
+      assert (Hhead : forall d', In d' (expire_dues (trace s)) -> d' <= p_due p).
+      { intros d' Hd'. apply expire_dues_in in Hd' as [u' Hu']. eapply o_armed; eauto. }
+      constructor; cbn.
+      + split; [exact Hhead | apply (o_sorted _ HO)].
+      + intros u0 d0 [Heq|Hi]; [inversion Heq; subst; exact Hle | apply (o_le_now _ HO _ _ Hi)].
+      + intros k q Hl Ha u0 d0 Hi. rewrite lookup_upd in Hl. destruct (u =? k) eqn:E.
+        * destruct (lookup (pending s) k); [|discriminate]. cbn in Hl. injection Hl as <-. discriminate.
+        * destruct Hi as [Heq|Hi]; [|eapply o_armed; eauto].
+          inversion Heq; subst u0 d0.
+          destruct (N.le_gt_cases (p_due q) (now s)) as [Hq|Hq]; [|lia].
+          apply (Hmin k (p_due q)); [|exact Hq].
+          apply armed_list_in. exists q. split; [now apply lookup_In | auto].
+      + intros u0 d0 [Heq|Hi].
+        * inversion Heq; subst. exists sid, tgt, (p_enq p), (p_delay p). split; [now right | reflexivity].
+        * destruct (o_sent _ HO _ _ Hi) as (a & b & c & e & Hs & He). exists a, b, c, e. split; [now right | exact He].
+      + intros l1 u0 t tgt0 l2 Heq. apply cons_decomp in Heq as [(_ & He & _)|(l1' & _ & Heq)]; [discriminate|].
+        eapply o_dlv; eauto.
+    - apply InvOrd_frame with (s := s); cbn; auto; try lia. intros k q Hl Ha. now exists q.
+    - apply InvOrd_frame with (s := s); cbn; auto; try lia. intros k q Hl Ha. now exists q.
+    - apply InvOrd_frame with (s := s); cbn; auto; try lia. intros k q Hl Ha. now exists q.
+    - (* section 1 *)
+      apply InvOrd_frame with (s := s); cbn; auto; try lia. intros k q Hl Ha.
+      destruct (dv_cb_takes_entry v).
+      + rewrite lookup_remove in Hl. destruct (u =? k); [discriminate|]. now exists q.
+      + rewrite lookup_upd in Hl. destruct (u =? k); [|now exists q].
+        destruct (lookup (pending s) k) as [q0|] eqn:Hq; [|discriminate]. cbn in Hl. injection Hl as <-.
+        exists q0. auto.
+    - apply InvOrd_frame with (s := s); cbn; auto; try lia. intros k q Hl Ha. now exists q.
+    - (* delivery *)
+      destruct (i_cb _ HI u) as (_ & _ & Hlast); [now rewrite H|].
+      unfold ready_trace.
+      assert (Hsame : InvOrd (mk (now s) (prog s) (ipc s) (TDelivered u) (pending s) (remove u (targets s))
+                               (current_cb s) (release (delayM s)) (queueM s) (trace s))).
+      { apply InvOrd_frame with (s := s); cbn; auto; try lia. intros k q Hl Ha. now exists q. }
+      assert (Hdl : forall g, InvOrd (mk (now s) (prog s) (ipc s) (TDelivered u) (pending s) (remove u (targets s))
+                               (current_cb s) (release (delayM s)) (queueM s) (EDeliver u (now s) g true :: trace s))).
+      { intros g. constructor; cbn.
+        - apply (o_sorted _ HO).
+        - intros u0 d0 [Heq|Hi]; [discriminate | apply (o_le_now _ HO _ _ Hi)].
+        - intros k p Hl Ha u0 d0 [Heq|Hi]; [discriminate | eapply o_armed; eauto].
+        - intros u0 d0 [Heq|Hi]; [discriminate|].
+          destruct (o_sent _ HO _ _ Hi) as (a & b & c & e & Hs & He). exists a, b, c, e. split; [now right | exact He].
+        - intros l1 u0 t tgt0 l2 Heq. apply cons_decomp in Heq as [(_ & He & <-)|(l1' & _ & Heq)].
+          + inversion He; subst. exact Hlast.
+          + eapply o_dlv; eauto. }
+      destruct (lookup (targets s) u) as [[a b]|]; [apply Hdl|].
+      destruct (dv_ready_checks v); [exact Hsame | apply Hdl].
+    - (* section 3 *)
+      apply InvOrd_frame with (s := s); cbn; auto; try lia. intros k q Hl Ha.
+      destruct (dv_cb_takes_entry v); [now exists q|].
+      rewrite lookup_remove in Hl. destruct (u =? k); [discriminate|]. now exists q.
+    - apply InvOrd_frame with (s := s); cbn; auto; try lia. intros k q Hl Ha. now exists q.
+  Qed.
+End PreserveOrd.
+
+(* ------------------------------------------------------------------------------------------ *)
+(* a cancel that returns before the due time *)
+
+Definition dead (s : dstate) (u : N) : Prop :=
+  lookup (pending s) u = None /\ tpc_on (tpc s) <> Some u /\ ~ In u (delivered (trace s)).
+
+Definition cancel_todo (i : ipc_t) : option (N * list N) :=
+  match i with
+  | IQBefore sid u todo | IQLocked sid u todo => Some (sid, u :: todo)
+  | _ => None
+  end.
+
+Record InvCan (s : dstate) : Prop := {
+  c_K : forall u sid tgt enq d, In (ESend u sid tgt enq d) (trace s) ->
+          (exists x, lookup (targets s) u = Some x) \/ enq + d <= now s \/ dead s u;
+  c_M : forall sid l, cancel_todo (ipc s) = Some (sid, l) ->
+          forall u tgt enq d, In (ESend u sid tgt enq d) (trace s) ->
+            In u l \/ enq + d <= now s \/ dead s u;
+  c_L : forall l1 sid tc l2, trace s = l1 ++ ECancelDone sid tc :: l2 ->
+          forall u tgt enq d, In (ESend u sid tgt enq d) l2 -> tc < enq + d -> dead s u
+}.
+
+Lemma nodup_app_r {A} (a b : list A) : NoDup (a ++ b) -> NoDup b.
+Proof. induction a as [|x a IH]; cbn; [auto|]. intros H. inversion H; auto. Qed.
+
+Lemma sent_nodup s : Inv1 s -> NoDup (sent_uuids (trace s)).
+Proof. intros HI. pose proof (i_sends _ HI) as H. now apply nodup_app_r in H. Qed.
+
+Lemma sid_keys_in tg u sid tgt : lookup tg u = Some (sid, tgt) -> In u (sid_keys sid tg).
+Proof.
+  intros H. apply lookup_In in H. unfold sid_keys. apply in_map_iff. exists (u, (sid, tgt)).
+  split; [reflexivity|]. apply filter_In. split; [exact H|]. cbn. apply N.eqb_refl.
+Qed.
+
+Lemma tpc_on_dec t u : {tpc_on t = Some u} + {tpc_on t <> Some u}.
+Proof.
+  destruct (tpc_on t) as [x|]; [|right; discriminate].
+  destruct (N.eq_dec x u) as [->|Hne]; [now left | right; congruence].
+Qed.
+
+(* once the entry of u is gone: either u was already due, or nothing can deliver it any more *)
+Lemma after_removal s u sid tgt enq d :
+  Inv1 s -> In (ESend u sid tgt enq d) (trace s) ->
+  enq + d <= now s \/ (tpc_on (tpc s) <> Some u /\ ~ In u (delivered (trace s))).
+Proof.
+  intros HI Hs. destruct (tpc_on_dec (tpc s) u) as [Hc|Hc].
+  - left. destruct (i_cb _ HI _ Hc) as ((a & b & c & e & Hs' & Hle) & _).
+    destruct (send_unique _ _ _ _ _ _ _ _ _ _ (sent_nodup _ HI) Hs Hs') as (_ & _ & -> & ->). exact Hle.
+  - destruct (in_dec N.eq_dec u (delivered (trace s))) as [Hd|Hd]; [|right; now split].
+    left. apply in_delivered in Hd as (t & g & b & Hd).
+    destruct (i_dlv _ HI _ _ _ _ Hd) as (Ht & a & b0 & c & e & Hs' & Hle).
+    destruct (send_unique _ _ _ _ _ _ _ _ _ _ (sent_nodup _ HI) Hs Hs') as (_ & _ & -> & ->). lia.
+Qed.
+
+Section PreserveCan.
+  Variable v : dvariant.
+  Variable pick : list (N * N) -> N -> option N.
+
+  Lemma dead_step s s' u :
+    step_rel v pick s s' -> Inv1 s -> In u (sent_uuids (trace s)) -> dead s u -> dead s' u.
+  Proof.
+    intros Hs HI Hsent (Hp & Hc & Hd). destruct Hs; unfold dead; cbn.
+    - destruct (fresh_uuid _ _ _ _ _ _ HI H0) as [Hf _].
+      repeat split; auto. intros [<-|Hx]; auto.
+    - destruct (fresh_uuid _ _ _ _ _ _ HI H0) as [Hf _].
+      destruct (cancel_entry_done _ _ _ _ _ H4) as (Hlk & _ & _).
+      repeat split; auto. rewrite lookup_put. destruct (u0 =? u) eqn:E.
+      + apply N.eqb_eq in E; subst. contradiction.
+      + rewrite Hlk, E. exact Hp.
+    - repeat split; auto.
+    - repeat split; auto.
+    - repeat split; auto.
+    - repeat split; auto.
+    - destruct (cancel_all_done _ _ _ _ _ H0) as (Hsub & _ & _). repeat split; auto.
+      destruct (lookup pd u) eqn:E; [|reflexivity]. apply Hsub in E. congruence.
+    - repeat split; auto.
+    - repeat split; auto.
+    - pose proof (cancel_entry_submap _ _ _ _ _ H0) as Hsub. repeat split; auto.
+      destruct (lookup pd u) eqn:E; [|reflexivity]. apply Hsub in E. congruence.
+    - pose proof (cancel_entry_submap _ _ _ _ _ H0) as Hsub. repeat split; auto.
+      destruct (lookup pd u) eqn:E; [|reflexivity]. apply Hsub in E. congruence.
+    - repeat split; auto.
+    - repeat split; auto.
+      + rewrite lookup_upd. destruct (u0 =? u); [now rewrite Hp | exact Hp].
+      + intros [= ->]. congruence.
+    - repeat split; auto. discriminate.
+    - repeat split; auto.
+    - repeat split; auto.
+    - repeat split; auto.
+      + destruct (dv_cb_takes_entry v).
+        * rewrite lookup_remove. now destruct (u0 =? u).
+        * rewrite lookup_upd. destruct (u0 =? u); [now rewrite Hp | exact Hp].
+      + intros [= ->]. apply Hc. now rewrite H.
+    - repeat split; auto. intros [= ->]. apply Hc. now rewrite H.
+    - repeat split; auto.
+      + intros [= ->]. apply Hc. now rewrite H.
+      + unfold ready_trace. assert (u0 <> u) by (intros ->; apply Hc; now rewrite H).
+        destruct (lookup (targets s) u0) as [[a b]|]; cbn; [intros [?|?]; auto|].
+        destruct (dv_ready_checks v); cbn; [auto | intros [?|?]; auto].
+    - repeat split; auto; [|discriminate].
+      destruct (dv_cb_takes_entry v); [exact Hp|]. rewrite lookup_remove. now destruct (u0 =? u).
+    - repeat split; auto.
+  Qed.
+
+  (* observations a step adds are never sends of an already sent uuid, and the history only grows *)
+  Lemma trace_grows s s' : step_rel v pick s s' -> exists l, trace s' = l ++ trace s.
+  Proof.
+    intros Hs. destruct Hs; cbn;
+      try (now exists []); try (eexists [_]; reflexivity); try (eexists [_; _]; reflexivity).
+    unfold ready_trace. destruct (lookup (targets s) u) as [[a b]|]; [eexists [_]; reflexivity|].
+    destruct (dv_ready_checks v); [now exists [] | eexists [_]; reflexivity].
+  Qed.
+
+  Lemma now_grows s s' : step_rel v pick s s' -> now s <= now s'.
+  Proof. intros Hs. destruct Hs; cbn; lia. Qed.
+
+  Lemma sent_mono s s' u : step_rel v pick s s' -> In u (sent_uuids (trace s)) -> In u (sent_uuids (trace s')).
+  Proof.
+    intros Hs Hin. destruct (trace_grows _ _ Hs) as [l ->].
+    apply sent_uuids_in in Hin as (a & b & c & e & Hin). eapply sent_in. apply in_or_app. right. exact Hin.
+  Qed.
+End PreserveCan.
+
+Section PreserveCan2.
+  Variable v : dvariant.
+  Variable pick : list (N * N) -> N -> option N.
+
+  Lemma new_send s s' u a b c e :
+    step_rel v pick s s' -> In (ESend u a b c e) (trace s') ->
+    In (ESend u a b c e) (trace s) \/
+    (ipc s = IIdle /\ exists rest, prog s = OSend u a b e :: rest /\ c = now s).
+  Proof.
+    intros Hs Hin. destruct Hs; cbn in Hin; auto;
+      try (destruct Hin as [Heq|Hin]; [discriminate | auto]; fail).
+    - destruct Hin as [Heq|[Heq|Hin]]; [discriminate| |auto].
+      inversion Heq; subst. right. split; [assumption|]. now exists rest.
+    - destruct Hin as [Heq|Hin]; [|auto]. inversion Heq; subst. right. split; [assumption|]. now exists rest.
+    - unfold ready_trace in Hin. destruct (lookup (targets s) u0) as [[x y]|].
+      + destruct Hin as [Heq|Hin]; [discriminate | auto].
+      + destruct (dv_ready_checks v); [auto|]. destruct Hin as [Heq|Hin]; [discriminate | auto].
+  Qed.
+
+  (* after the entry of u has been taken out of both maps *)
+  Lemma removed_alt s s' u sid tgt enq d :
+    Inv1 s -> In (ESend u sid tgt enq d) (trace s) ->
+    lookup (pending s') u = None -> tpc s' = tpc s -> delivered (trace s') = delivered (trace s) ->
+    enq + d <= now s \/ dead s' u.
+  Proof.
+    intros HI Hs Hp Ht Hd. destruct (after_removal _ _ _ _ _ _ HI Hs) as [Hle|[Hc Hnd]]; [now left|].
+    right. unfold dead. rewrite Ht, Hd. auto.
+  Qed.
+
+  Lemma K_old s s' : step_rel v pick s s' -> Inv1 s -> InvCan s ->
+    forall u sid tgt enq d, In (ESend u sid tgt enq d) (trace s) ->
+      (exists x, lookup (targets s') u = Some x) \/ enq + d <= now s' \/ dead s' u.
+  Proof.
+    intros Hs HI HC u sid tgt enq d Hin.
+    pose proof (now_grows _ _ _ _ Hs) as Hnow.
+    destruct (c_K _ HC _ _ _ _ _ Hin) as [[x Hx]|[Hle|Hdead]].
+    2: { right; left; lia. }
+    2: { right; right. eapply dead_step; eauto. eapply sent_in; eauto. }
+    destruct Hs; cbn in *; try (left; exists x; exact Hx).
+    - (* send 0 removes the fresh uuid *)
+      destruct (fresh_uuid _ _ _ _ _ _ HI H0) as [Hf _].
+      left. exists x. rewrite lookup_remove. destruct (u0 =? u) eqn:E; [|exact Hx].
+      apply N.eqb_eq in E; subst. exfalso. apply Hf. eapply sent_in; eauto.
+    - left. rewrite lookup_put. destruct (u0 =? u); eauto.
+    - (* last cancel step *)
+      destruct (cancel_entry_done _ _ _ _ _ H0) as (Hlk & _ & _).
+      rewrite lookup_remove. destruct (u0 =? u) eqn:E; [|left; exists x; exact Hx].
+      apply N.eqb_eq in E; subst u0. right.
+      eapply removed_alt; eauto; cbn; auto. rewrite Hlk, N.eqb_refl. reflexivity.
+    - destruct (cancel_entry_done _ _ _ _ _ H0) as (Hlk & _ & _).
+      rewrite lookup_remove. destruct (u0 =? u) eqn:E; [|left; exists x; exact Hx].
+      apply N.eqb_eq in E; subst u0. right.
+      eapply removed_alt; eauto; cbn; auto. rewrite Hlk, N.eqb_refl. reflexivity.
+    - (* delivery *)
+      rewrite lookup_remove. destruct (u0 =? u) eqn:E; [|left; exists x; exact Hx].
+      apply N.eqb_eq in E; subst u0. right. left.
+      destruct (i_cb _ HI u) as ((a & b & c & e & Hs' & Hle) & _); [now rewrite H|].
+      destruct (send_unique _ _ _ _ _ _ _ _ _ _ (sent_nodup _ HI) Hin Hs') as (_ & _ & -> & ->). exact Hle.
+  Qed.
+
+  Lemma L_old s s' : step_rel v pick s s' -> Inv1 s -> InvCan s ->
+    forall l1 sid tc l2, trace s = l1 ++ ECancelDone sid tc :: l2 ->
+      forall u tgt enq d, In (ESend u sid tgt enq d) l2 -> tc < enq + d -> dead s' u.
+  Proof.
+    intros Hs HI HC l1 sid tc l2 Heq u tgt enq d Hin Hlt.
+    eapply dead_step; eauto.
+    - eapply sent_in. rewrite Heq. apply in_or_app. right. right. exact Hin.
+    - eapply c_L; eauto.
+  Qed.
+
+  Ltac old_decomp Heq :=
+    let l := fresh "lx" in let He := fresh "He" in
+    apply cons_decomp in Heq as [(_ & He & _)|(l & _ & Heq)]; [discriminate|].
+
+  Lemma InvCan_step s s' : step_rel v pick s s' -> Inv1 s -> InvCan s -> InvCan s'.
+  Proof.
+    intros Hs HI HC.
+    pose proof (K_old _ _ Hs HI HC) as HK.
+    pose proof (L_old _ _ Hs HI HC) as HL.
+    pose proof (now_grows _ _ _ _ Hs) as Hnow.
+    assert (HM : forall sid l, cancel_todo (ipc s) = Some (sid, l) ->
+              forall u tgt enq d, In (ESend u sid tgt enq d) (trace s) ->
+                In u l \/ enq + d <= now s' \/ dead s' u).
+    { intros sid l Hc u tgt enq d Hin. destruct (c_M _ HC _ _ Hc _ _ _ _ Hin) as [H|[H|H]]; auto.
+      - right; left; lia.
+      - right; right. eapply dead_step; eauto. eapply sent_in; eauto. }
+    destruct Hs.
+    - (* send 0 *)
+      constructor; cbn in *.
+      + intros u0 sid0 tgt0 enq d [Heq|[Heq|Hin]]; [discriminate| |eapply HK; eauto].
+        inversion Heq; subst. right; left. lia.
+      + discriminate.
+      + intros l1 sid0 tc l2 Heq. old_decomp Heq. old_decomp Heq. eapply HL; eauto.
+    - (* send *)
+      constructor; cbn in *.
+      + intros u0 sid0 tgt0 enq d0 [Heq|Hin]; [|eapply HK; eauto].
+        inversion Heq; subst. left. rewrite lookup_put, N.eqb_refl. eauto.
+      + discriminate.
+      + intros l1 sid0 tc l2 Heq. old_decomp Heq. eapply HL; eauto.
+    - (* fault *)
+      constructor; cbn in *; [apply HK | apply HM | apply HL].
+    - (* cancel with nothing to do *)
+      constructor; cbn in *.
+      + intros u0 sid0 tgt0 enq d [Heq|Hin]; [discriminate | eapply HK; eauto].
+      + discriminate.
+      + intros l1 sid0 tc l2 Heq u0 tgt0 enq d Hin Hlt.
+        apply cons_decomp in Heq as [(_ & He & <-)|(l1' & _ & Heq)]; [|eapply HL; eauto].
+        inversion He; subst sid0 tc.
+        destruct (HK _ _ _ _ _ Hin) as [[[sid1 tgt1] Hx]|[Hle|Hdead]]; [|lia|exact Hdead].
+        exfalso. destruct (i_tgt _ HI _ _ _ Hx) as (c & e & Hs').
+        destruct (send_unique _ _ _ _ _ _ _ _ _ _ (sent_nodup _ HI) Hin Hs') as (-> & _).
+        apply sid_keys_in in Hx. rewrite H2 in Hx. exact Hx.
+    - (* cancel starts *)
+      constructor; cbn in *; [apply HK | | apply HL].
+      intros sid0 l [= <- <-] u0 tgt0 enq d Hin.
+      destruct (HK _ _ _ _ _ Hin) as [[[sid1 tgt1] Hx]|[Hle|Hdead]]; auto.
+      left. destruct (i_tgt _ HI _ _ _ Hx) as (c & e & Hs').
+      destruct (send_unique _ _ _ _ _ _ _ _ _ _ (sent_nodup _ HI) Hin Hs') as (-> & _).
+      apply sid_keys_in in Hx. now rewrite H2 in Hx.
+    - constructor; cbn in *; [apply HK | discriminate | apply HL].
+    - constructor; cbn in *; [apply HK | discriminate | apply HL].
+    - constructor; cbn in *; [apply HK | apply HM | apply HL].
+    - constructor; cbn in *; [apply HK | | apply HL].
+      intros sid0 l [= <- <-]. apply HM. now rewrite H.
+    - (* last cancel step *)
+      destruct (cancel_entry_done _ _ _ _ _ H0) as (Hlk & _ & _).
+      constructor; cbn in *.
+      + intros u0 sid0 tgt0 enq d [Heq|Hin]; [discriminate | eapply HK; eauto].
+      + discriminate.
+      + intros l1 sid0 tc l2 Heq u0 tgt0 enq d Hin Hlt.
+        apply cons_decomp in Heq as [(_ & He & <-)|(l1' & _ & Heq)]; [|eapply HL; eauto].
+        inversion He; subst sid0 tc.
+        destruct (HM sid [u]) with (u := u0) (tgt := tgt0) (enq := enq) (d := d) as [[<-|[]]|[Hle|Hdead]];
+          [now rewrite H | exact Hin | | lia | exact Hdead].
+        destruct (removed_alt s (mk (now s) (prog s) IIdle (tpc s) pd (remove u (targets s)) (current_cb s)
+                     (release (delayM s)) (release (queueM s)) (ECancelDone sid (now s) :: trace s))
+                   u sid tgt0 enq d HI Hin) as [Hle|Hdead]; cbn; auto; [|lia].
+        rewrite Hlk, N.eqb_refl. reflexivity.
+    - (* cancel step, more to do *)
+      destruct (cancel_entry_done _ _ _ _ _ H0) as (Hlk & _ & _).
+      constructor; cbn in *; [apply HK | | apply HL].
+      intros sid0 l [= <- <-] u0 tgt0 enq d Hin.
+      destruct (HM sid (u :: u' :: todo')) with (u := u0) (tgt := tgt0) (enq := enq) (d := d) as [[<-|Hl]|[Hle|Hdead]];
+        [now rewrite H | exact Hin | | now left | now (right; left) | now (right; right)].
+      right.
+      destruct (removed_alt s (mk (now s) (prog s) (IQBefore sid u' todo') (tpc s) pd (remove u (targets s)) (current_cb s)
+                     (delayM s) (release (queueM s)) (trace s))
+                 u sid tgt0 enq d HI Hin) as [Hle|Hdead]; cbn; auto.
+      rewrite Hlk, N.eqb_refl. reflexivity.
+    - constructor; cbn in *; [apply HK | apply HM | apply HL].
+    - (* expire *)
+      constructor; cbn in *.
+      + intros u0 sid0 tgt0 enq d [Heq|Hin]; [discriminate | eapply HK; eauto].
+      + intros sid0 l Hc u0 tgt0 enq d [Heq|Hin]; [discriminate | eapply HM; eauto].
+      + intros l1 sid0 tc l2 Heq. old_decomp Heq. eapply HL; eauto.
+    - constructor; cbn in *; [apply HK | apply HM | apply HL].
+    - constructor; cbn in *; [apply HK | apply HM | apply HL].
+    - constructor; cbn in *; [apply HK | apply HM | apply HL].
+    - constructor; cbn in *; [apply HK | apply HM | apply HL].
+    - constructor; cbn in *; [apply HK | apply HM | apply HL].
+    - (* delivery *)
+      assert (Hold : forall x, In x (ready_trace v s u) -> (exists a b c e, x = EDeliver a b c e) \/ In x (trace s)).
+      { intros x. unfold ready_trace. destruct (lookup (targets s) u) as [[a b]|].
+        - intros [<-|Hx]; [left; eauto | now right].
+        - destruct (dv_ready_checks v); [now right|]. intros [<-|Hx]; [left; eauto | now right]. }
+      constructor; cbn in *.
+      + intros u0 sid0 tgt0 enq d Hin. destruct (Hold _ Hin) as [(a & b & c & e & Heq)|Hin']; [discriminate|].
+        eapply HK; eauto.
+      + intros sid0 l Hc u0 tgt0 enq d Hin. destruct (Hold _ Hin) as [(a & b & c & e & Heq)|Hin']; [discriminate|].
+        eapply HM; eauto.
+      + intros l1 sid0 tc l2 Heq. unfold ready_trace in Heq.
+        destruct (lookup (targets s) u) as [[a b]|].
+        * old_decomp Heq. eapply HL; eauto.
+        * destruct (dv_ready_checks v); [eapply HL; eauto|]. old_decomp Heq. eapply HL; eauto.
+    - constructor; cbn in *; [apply HK | apply HM | apply HL].
+    - constructor; cbn in *; [apply HK | apply HM | apply HL].
+  Qed.
+End PreserveCan2.
+
+(* ------------------------------------------------------------------------------------------ *)
+(* all schedules *)
+
+Lemma nodup_N_spec l : nodup_N l = true <-> NoDup l.
+Proof.
+  induction l as [|x l IH]; cbn.
+  - split; [constructor | reflexivity].
+  - rewrite andb_true_iff, negb_true_iff, IH. split.
+    + intros [Hx Hnd]. constructor; [|exact Hnd]. intros Hin.
+      assert (existsb (N.eqb x) l = true) by (apply existsb_exists; exists x; split; [exact Hin | apply N.eqb_refl]).
+      congruence.
+    + intros H. inversion H as [|? ? Hni Hnd]; subst. split; [|exact Hnd].
+      destruct (existsb (N.eqb x) l) eqn:E; [|reflexivity].
+      apply existsb_exists in E as (y & Hy & Heq). apply N.eqb_eq in Heq; subst. contradiction.
+Qed.
+
+Section AllSchedules.
+  Variable v : dvariant.
+  Variable pick : list (N * N) -> N -> option N.
+  Hypothesis Hpick : pick_sound pick.
+
+  Definition Inv (s : dstate) : Prop := Inv1 s /\ InvOrd s /\ InvCan s.
+
+  Lemma Inv_init p : wf_prog p = true -> Inv (init p).
+  Proof.
+    intros Hwf. apply nodup_N_spec in Hwf. split; [|split].
+    - constructor; cbn; try easy.
+      + constructor.
+      + now rewrite app_nil_r.
+      + constructor.
+    - constructor; cbn; try easy; intros l1 u t tgt l2 H; now destruct l1.
+    - constructor; cbn; try easy; intros l1 sid tc l2 H; now destruct l1.
+  Qed.
+
+  Lemma Inv_step s t : Inv s -> Inv (step_or_stay v pick s t).
+  Proof.
+    intros (H1 & H2 & H3). unfold step_or_stay. destruct (dstep v pick s t) as [s'|] eqn:E; [|split; [exact H1 | split; [exact H2 | exact H3]]].
+    apply dstep_rel in E as [_ Hr]. split; [|split].
+    - eapply Inv1_step; eauto.
+    - eapply InvOrd_step; eauto.
+    - eapply InvCan_step; eauto.
+  Qed.
+
+  Lemma Inv_run sched : forall s, Inv s -> Inv (run v pick s sched).
+  Proof. induction sched as [|t r IH]; cbn; intros s H; [exact H|]. apply IH. now apply Inv_step. Qed.
+
+  Lemma Inv_reach p sched : wf_prog p = true -> Inv (run v pick (init p) sched).
+  Proof. intros H. apply Inv_run. now apply Inv_init. Qed.
+
+  (* delivered at most once *)
+  Lemma fires_at_most_once_lemma p sched :
+    wf_prog p = true -> NoDup (delivered (trace (run v pick (init p) sched))).
+  Proof. intros H. apply (i_dlv_nodup _ (proj1 (Inv_reach p sched H))). Qed.
+
+  (* never before enqueue time + delay *)
+  Lemma never_early_lemma p sched u t tgt b :
+    wf_prog p = true ->
+    In (EDeliver u t tgt b) (trace (run v pick (init p) sched)) ->
+    exists sid tgt' enq d, In (ESend u sid tgt' enq d) (trace (run v pick (init p) sched)) /\ enq + d <= t.
+  Proof.
+    intros H Hin. destruct (i_dlv _ (proj1 (Inv_reach p sched H)) _ _ _ _ Hin) as (_ & Hx). exact Hx.
+  Qed.
+
+  (* deliveries by the timer thread are in due order: the later one is not due earlier *)
+  Lemma due_order_lemma p sched l1 l2 l3 u1 t1 g1 u2 t2 g2 s1 a1 e1 d1 s2 a2 e2 d2 :
+    wf_prog p = true ->
+    let tr := trace (run v pick (init p) sched) in
+    tr = l1 ++ EDeliver u2 t2 g2 true :: l2 ++ EDeliver u1 t1 g1 true :: l3 ->
+    In (ESend u1 s1 a1 e1 d1) tr -> In (ESend u2 s2 a2 e2 d2) tr ->
+    e1 + d1 <= e2 + d2.
+  Proof.
+    intros H tr Heq Hs1 Hs2. destruct (Inv_reach p sched H) as (HI & HO & _). fold tr in HI, HO.
+    set (s := run v pick (init p) sched) in *.
+    destruct (o_dlv _ HO _ _ _ _ _ Heq) as [x2 Hx2].
+    assert (Heq' : trace s = (l1 ++ EDeliver u2 t2 g2 true :: l2) ++ EDeliver u1 t1 g1 true :: l3).
+    { fold tr. rewrite Heq. now rewrite <- app_assoc. }
+    destruct (o_dlv _ HO _ _ _ _ _ Heq') as [x1 Hx1].
+    assert (Hle : x1 <= x2).
+    { change (l2 ++ EDeliver u1 t1 g1 true :: l3) with (l2 ++ [EDeliver u1 t1 g1 true] ++ l3) in Hx2.
+      rewrite app_assoc in Hx2.
+      eapply last_expire_sorted; [|exact Hx2|exact Hx1].
+      pose proof (o_sorted _ HO) as Hso. fold tr in Hso. rewrite Heq in Hso.
+      rewrite expire_dues_app in Hso. apply sorted_ge_app_r in Hso. cbn in Hso.
+      change (l2 ++ EDeliver u1 t1 g1 true :: l3) with (l2 ++ [EDeliver u1 t1 g1 true] ++ l3) in Hso.
+      now rewrite app_assoc in Hso. }
+    assert (Hin1 : In (EExpire u1 x1) (trace s)).
+    { rewrite Heq'. apply in_or_app. right. right. now apply last_expire_in. }
+    assert (Hin2 : In (EExpire u2 x2) (trace s)).
+    { fold tr. rewrite Heq. apply in_or_app. right. right. now apply last_expire_in. }
+    destruct (o_sent _ HO _ _ Hin1) as (a & b & c & e & Hsa & ->).
+    destruct (o_sent _ HO _ _ Hin2) as (a' & b' & c' & e' & Hsb & ->).
+    destruct (send_unique _ _ _ _ _ _ _ _ _ _ (sent_nodup _ HI) Hs1 Hsa) as (_ & _ & -> & ->).
+    destruct (send_unique _ _ _ _ _ _ _ _ _ _ (sent_nodup _ HI) Hs2 Hsb) as (_ & _ & -> & ->).
+    exact Hle.
+  Qed.
+
+  (* after a cancel that returned before the due time the event is never delivered *)
+  Lemma cancel_before_due_lemma p sched l1 sid tc l2 u tgt enq d :
+    wf_prog p = true ->
+    trace (run v pick (init p) sched) = l1 ++ ECancelDone sid tc :: l2 ->
+    In (ESend u sid tgt enq d) l2 -> tc < enq + d ->
+    ~ In u (delivered (trace (run v pick (init p) sched))).
+  Proof.
+    intros H Heq Hin Hlt. destruct (Inv_reach p sched H) as (_ & _ & HC).
+    destruct (c_L _ HC _ _ _ _ Heq _ _ _ _ Hin Hlt) as (_ & _ & Hd). exact Hd.
+  Qed.
+End AllSchedules.
+
+(* the instantiated choice function satisfies the assumption (so the theorems are not vacuous) *)
+Lemma pick_min_aux_sound l : forall best t u,
+  (forall bu bd, best = Some (bu, bd) -> bd <= t) ->
+  pick_min_aux best l t = Some u ->
+  exists d, (In (u, d) l \/ best = Some (u, d)) /\ d <= t /\
+            (forall u' d', In (u', d') l -> d' <= t -> d <= d') /\
+            (forall bu bd, best = Some (bu, bd) -> d <= bd).
+Proof.
+  induction l as [|[k dk] l IH]; cbn; intros best t u Hb H.
+  - destruct best as [[bu bd]|]; [|discriminate]. injection H as ->.
+    exists bd. repeat split; eauto. intros u' d' []. intros bu' bd' [= _ ->]. lia.
+  - destruct (dk <=? t) eqn:Hle.
+    + apply N.leb_le in Hle. destruct best as [[bu bd]|].
+      * destruct (dk <? bd) eqn:Hlt.
+        -- apply N.ltb_lt in Hlt. apply IH in H as (d & Hin & Hd & Hmin & Hbest).
+           2: { intros ? ? [= _ <-]. exact Hle. }
+           exists d. repeat split.
+           ++ destruct Hin as [Hin|Heq]; [left; now right|]. injection Heq as <- <-. left. now left.
+           ++ exact Hd.
+           ++ intros u' d' [Heq|Hin'] Hd'; [|eapply Hmin; eauto]. inversion Heq; subst. eapply Hbest; eauto.
+           ++ intros bu' bd' [= _ <-]. specialize (Hbest _ _ eq_refl). lia.
+        -- apply N.ltb_ge in Hlt. apply IH in H as (d & Hin & Hd & Hmin & Hbest); [|exact Hb].
+           exists d. repeat split.
+           ++ destruct Hin as [Hin|Heq]; [left; now right | now right].
+           ++ exact Hd.
+           ++ intros u' d' [Heq|Hin'] Hd'; [|eapply Hmin; eauto]. inversion Heq; subst.
+              specialize (Hbest _ _ eq_refl). lia.
+           ++ exact Hbest.
+      * apply IH in H as (d & Hin & Hd & Hmin & Hbest).
+        2: { intros ? ? [= _ <-]. exact Hle. }
+        exists d. repeat split.
+        -- destruct Hin as [Hin|Heq]; [left; now right|]. injection Heq as <- <-. left. now left.
+        -- exact Hd.
+        -- intros u' d' [Heq|Hin'] Hd'; [|eapply Hmin; eauto]. inversion Heq; subst. eapply Hbest; eauto.
+        -- discriminate.
+    + apply N.leb_gt in Hle. apply IH in H as (d & Hin & Hd & Hmin & Hbest); [|exact Hb].
+      exists d. repeat split.
+      * destruct Hin as [Hin|Heq]; [left; now right | now right].
+      * exact Hd.
+      * intros u' d' [Heq|Hin'] Hd'; [|eapply Hmin; eauto]. inversion Heq; subst. lia.
+      * exact Hbest.
+Qed.
+
+Lemma pick_min_sound : pick_sound pick_min.
+Proof.
+  intros l t u H. unfold pick_min in H. apply pick_min_aux_sound in H as (d & Hin & Hd & Hmin & _).
+  - exists d. destruct Hin as [Hin|Heq]; [|discriminate]. repeat split; auto.
+  - discriminate.
+Qed.
+
